@@ -48,6 +48,9 @@ type env struct {
 	runs      map[string]int
 	nestErr   []string
 	mid       atomic.Uint32
+	// nonGets: the connection's own requests (nested ones included) are Non-confirmable on the datagram transport
+	nonGets atomic.Bool
+	peerMID atomic.Uint32
 }
 
 func newEnv(kind string, queue int) *env {
@@ -106,6 +109,20 @@ func newEnv(kind string, queue int) *env {
 			return out
 		}
 		e.get = func(ctx context.Context, path string) ([]byte, error) {
+			if e.nonGets.Load() {
+				req, err := cc.NewGetRequest(ctx, path)
+				if err != nil {
+					return nil, err
+				}
+				defer cc.ReleaseMessage(req)
+				req.SetType(message.NonConfirmable)
+				resp, err := cc.Do(req)
+				if err != nil {
+					return nil, err
+				}
+				defer cc.ReleaseMessage(resp)
+				return resp.ReadBody()
+			}
 			resp, err := cc.Get(ctx, path)
 			if err != nil {
 				return nil, err
@@ -228,7 +245,10 @@ func (p *peer) step() bool {
 
 func (p *peer) respond(get ref.Msg, body string) {
 	p.answered.Add(1)
-	if p.e.kind == "udp" {
+	if p.e.kind == "udp" && get.Type == 1 {
+		// a Non-confirmable request is answered with a Non-confirmable response under a message ID of the peer's own
+		p.e.inject(ref.Msg{Type: 1, Code: 0x45, MID: uint16(50000 + p.e.peerMID.Add(1)), Token: get.Token, Payload: []byte(body)})
+	} else if p.e.kind == "udp" {
 		p.e.inject(ref.Msg{Type: 2, Code: 0x45, MID: get.MID, Token: get.Token, Payload: []byte(body)})
 	} else {
 		p.e.inject(ref.Msg{Code: 0x45, Token: get.Token, Payload: []byte(body)})
@@ -257,6 +277,7 @@ type ccase struct {
 	Dups     int    `json:"duplicates_during_handler,omitempty"`
 	Clients  int    `json:"external_callers,omitempty"`
 	OwnMID   bool   `json:"request_mid_equals_own_mid,omitempty"`
+	NonGets  bool   `json:"own_requests_non_confirmable,omitempty"`
 }
 
 // pureServer: handlers return at once, nothing else happens: exactly once, in arrival order.
@@ -319,6 +340,7 @@ func pureServer(rec *vr.Rec, c ccase, rnd *rand.Rand) {
 func nested(rec *vr.Rec, c ccase, rnd *rand.Rand) {
 	e := newEnv(c.Kind, c.Queue)
 	defer e.closef()
+	e.nonGets.Store(c.NonGets)
 	if c.OwnMID {
 		e.mid.Store(30000) // the first injected request gets MID 30001 = the connection's first own MID
 	}
@@ -465,7 +487,7 @@ func dupReplies(c ccase) int {
 }
 
 func TestRun(t *testing.T) {
-	rec := vr.New("C11", "workloads on real udp (in-memory session) and tcp (scripted net.Conn) connections with receive-queue sizes 0, 1, 16: pure-server (50..300 uniquely tagged requests plus inline pings/stray ACKs, handlers return at once; exactly-once and arrival order), nested (handler chains blocking in nested GETs to depth 1..4, 0..20 plain requests, 0..4 external callers issuing 5 requests each; with 0..3 duplicates of the waiting handler's own request injected while it waits, and with request MID == the connection's own first MID); reader-loop hook points inject PRNG yields. Distinct = distinct workload tuples.")
+	rec := vr.New("C11", "workloads on real udp (in-memory session) and tcp (scripted net.Conn) connections with receive-queue sizes 0, 1, 16: pure-server (50..300 uniquely tagged requests plus inline pings/stray ACKs, handlers return at once; exactly-once and arrival order), nested (handler chains blocking in nested GETs to depth 1..4, 0..20 plain requests, 0..4 external callers issuing 5 requests each; with 0..3 duplicates of the waiting handler's own request injected while it waits, and with request MID == the connection's own first MID, and with the connection's own (nested) requests Non-confirmable); reader-loop hook points inject PRNG yields. Distinct = distinct workload tuples.")
 	defer rec.Flush(true)
 	seed := vr.Seed()
 	var hookHits atomic.Int64
@@ -504,6 +526,9 @@ func TestRun(t *testing.T) {
 						cases = append(cases, ccase{Workload: "nested", Kind: kind, Queue: q, Depth: depth, N: rnd.Intn(5), Dups: dups, Clients: rnd.Intn(2)})
 					}
 					cases = append(cases, ccase{Workload: "nested", Kind: kind, Queue: q, Depth: depth, N: rnd.Intn(5), OwnMID: true})
+					for rep := 0; rep < vr.Scale(2, 30); rep++ {
+						cases = append(cases, ccase{Workload: "nested", Kind: kind, Queue: q, Depth: depth, N: rnd.Intn(21), Clients: rnd.Intn(3), NonGets: true})
+					}
 				}
 			}
 		}
